@@ -63,12 +63,25 @@ func doneOp(name string, idx int, outcome string) pairOp {
 	}}
 }
 
+// gRPC delivers UpdateSubConnState / UpdateClientConnState to a balancer one at
+// a time (ccBalancerWrapper's serializer) and reports nothing for a SubConn
+// after its SHUTDOWN: balancer callbacks of a tuple exclude each other (their
+// order is still explored), picks and completions overlap them freely.
 func stateOp(name string, sc int, st connectivity.State) pairOp {
-	return pairOp{name: name, fn: func(w *poolWorld, res *[]string) { w.rawState(sc, st) }}
+	return pairOp{name: name, fn: func(w *poolWorld, res *[]string) {
+		w.serializer.Lock()
+		defer w.serializer.Unlock()
+		if w.cc.scs[sc].state == connectivity.Shutdown {
+			return
+		}
+		w.rawState(sc, st)
+	}}
 }
 
 func resolveOp(name, list string) pairOp {
 	return pairOp{name: name, fn: func(w *poolWorld, res *[]string) {
+		w.serializer.Lock()
+		defer w.serializer.Unlock()
 		w.b.UpdateClientConnState(balancer.ClientConnState{ResolverState: resolver.State{Addresses: addrLists[list]}, BalancerConfig: &GCPBalancerConfig{ApiConfig: w.cfg.apiConfig()}})
 	}}
 }
@@ -112,6 +125,37 @@ func pairStates() []pairState {
 					pickOp("plain", "plain", "", "L", false, "ok"),
 					resolveOp("resolve-a2", "a2"),
 					stateOp("sc0-IDLE", 0, connectivity.Idle),
+					stateOp("sc0-SHUTDOWN", 0, connectivity.Shutdown),
+				}
+			}},
+		// the swap is done: the retired connection's SHUTDOWN report is still to come, a BIND and a
+		// deadline call placed before the swap are still open
+		{name: "swap-done", cfg: poolCfg{Name: "pairs swap-done pool=2", Min: 2, Max: 2, WM: 100, Fallback: true, RefCalls: 1, RefMs: 1,
+			Setup: append(readyPool(2), "pick(bind,,L,g)", "done(0,ok:k1)", "pick(plain,,L,g,d1)", "pick(plain,,L,g,d1)", "pick(bind,,L,g)", "adv(2)", "done(0,cde)", "state(2,CONNECTING)", "state(2,READY)")},
+			ops: func(w *poolWorld) []pairOp {
+				return []pairOp{
+					stateOp("retired-SHUTDOWN", 0, connectivity.Shutdown),
+					doneOp("c1-deadline", 0, "cde"),
+					doneOp("bind-ok:k2", 1, "ok:k2"),
+					pickOp("bound-k1", "bound", "k1", "L", false, "ok"),
+					pickOp("bound-k1-O", "bound", "k1", "O", false, "ok"),
+					pickOp("unbind-k1", "unbind", "k1", "L", false, "ok"),
+					resolveOp("resolve-a2", "a2"),
+					stateOp("sc2-IDLE", 2, connectivity.Idle),
+				}
+			}},
+		// a pool below its minimum after a SHUTDOWN, growth allowed
+		{name: "shrunk", cfg: poolCfg{Name: "pairs shrunk min=2 max=3 wm=1", Min: 2, Max: 3, WM: 1,
+			Setup: append(readyPool(2), "pick(bind,,L,g)", "done(0,ok:k1)", "pick(plain,,L,g)", "pick(plain,,L,g)")},
+			ops: func(w *poolWorld) []pairOp {
+				return []pairOp{
+					pickOp("pickL", "plain", "", "L", false, "ok"),
+					pickOp("pickO", "plain", "", "O", false, "ok"),
+					pickOp("bound-k1", "bound", "k1", "L", false, "ok"),
+					stateOp("sc0-SHUTDOWN", 0, connectivity.Shutdown),
+					stateOp("sc1-TF", 1, connectivity.TransientFailure),
+					doneOp("c0-ok", 0, "ok"),
+					resolveOp("resolve-a2", "a2"),
 				}
 			}},
 		{name: "rr", cfg: poolCfg{Name: "pairs rr pool=2", Min: 2, Max: 2, WM: 100, RR: true,
@@ -135,6 +179,7 @@ func pairStates() []pairState {
 					stateOp("sc0-CONNECTING", 0, connectivity.Connecting),
 					stateOp("sc1-IDLE", 1, connectivity.Idle),
 					pickOp("bind", "bind", "", "L", false, "ok:k1"),
+					stateOp("sc0-SHUTDOWN", 0, connectivity.Shutdown),
 				}
 			}},
 	}
@@ -156,10 +201,19 @@ func (w *poolWorld) invariants(openCalls int, resolved string, blocked []string)
 	bad := map[string][]string{}
 	add := func(p, msg string) { bad[p] = append(bad[p], msg) }
 	// C02: conservation of stream counts
+	// (over the channels of the pool now and the ones that were in it when the tuple started: a channel
+	// that was shut down meanwhile keeps the calls placed on it)
 	total := 0
-	for sc, ref := range gb.scRefs {
+	refs := map[*subConnRef]bool{}
+	for _, ref := range w.pairRefs {
+		refs[ref] = true
+	}
+	for _, ref := range gb.scRefs {
+		refs[ref] = true
+	}
+	for ref := range refs {
 		if ref.streamsCnt < 0 {
-			add("C02", fmt.Sprintf("negative stream count on %s: %d", name(sc), ref.streamsCnt))
+			add("C02", fmt.Sprintf("negative stream count on %s: %d", name(ref.subConn), ref.streamsCnt))
 		}
 		total += int(ref.streamsCnt)
 	}
@@ -173,7 +227,12 @@ func (w *poolWorld) invariants(openCalls int, resolved string, blocked []string)
 		keys = append(keys, k)
 		perSC[sc]++
 		if _, ok := gb.scRefs[sc]; !ok {
-			add("C01", fmt.Sprintf("key %s is bound to %s which is not a pool connection", k, name(sc)))
+			// a key whose channel was shut down keeps its (dead) entry: C01's history rules judge how
+			// such a key is served; pointing at a connection that is merely retired, or was never in
+			// the pool, is a lost binding
+			if f, isFake := sc.(*fakeSC); !isFake || f == nil || f.state != connectivity.Shutdown {
+				add("C01", fmt.Sprintf("key %s is bound to %s which is not a pool connection and was not shut down", k, name(sc)))
+			}
 		}
 	}
 	sort.Strings(keys)
@@ -273,15 +332,15 @@ type pairRun struct {
 	broken  string
 }
 
-// runPair executes A and B on a fresh world: sequentially (mode 0: A;B, 1: B;A)
-// or concurrently (mode 2).
-func runPair(s *vsched.Sched, st pairState, ai, bi, mode int) *pairRun {
+// runTuple executes the operations idx on a fresh world: sequentially in the
+// given order (concurrent=false) or all overlapping (concurrent=true).
+func runTuple(s *vsched.Sched, st pairState, idx []int, concurrent bool) *pairRun {
 	s.Frozen = true
 	cfg := st.cfg
 	cfg.Prop = "PAIRS"
 	w := newPoolWorld(s, cfg)
 	w.pairCalls = append([]*call{}, w.calls...)
-	if mode != 2 {
+	if !concurrent {
 		// sequential baselines take default environment answers throughout
 		defer func() { s.Frozen = false }()
 	} else {
@@ -293,25 +352,22 @@ func runPair(s *vsched.Sched, st pairState, ai, bi, mode int) *pairRun {
 		return r
 	}
 	ops := st.ops(w)
-	a, b := ops[ai], ops[bi]
+	for _, ref := range w.gb.scRefs {
+		w.pairRefs = append(w.pairRefs, ref)
+	}
 	var ths []*vsched.Thread
 	var names []string
-	start := func(o pairOp) {
+	resolved := ""
+	for _, i := range idx {
+		o := ops[i]
 		ths = append(ths, s.Go(o.name, func() { o.fn(w, &r.results) }))
 		names = append(names, o.name)
-	}
-	switch mode {
-	case 0:
-		start(a)
-		s.WaitQuiescent()
-		start(b)
-	case 1:
-		start(b)
-		s.WaitQuiescent()
-		start(a)
-	default:
-		start(a)
-		start(b)
+		if o.name == "resolve-a2" {
+			resolved = "a2"
+		}
+		if !concurrent {
+			s.WaitQuiescent()
+		}
 	}
 	s.WaitQuiescent()
 	var blocked []string
@@ -323,6 +379,9 @@ func runPair(s *vsched.Sched, st pairState, ai, bi, mode int) *pairRun {
 			r.broken = "spin in " + names[i]
 		case !th.Done():
 			blocked = append(blocked, names[i])
+			if names[i] == "resolve-a2" {
+				resolved = ""
+			}
 		}
 	}
 	sort.Strings(blocked)
@@ -334,20 +393,42 @@ func runPair(s *vsched.Sched, st pairState, ai, bi, mode int) *pairRun {
 			}
 		}
 		open += w.pairPlaced - w.pairCompleted
-		resolved := ""
-		if a.name == "resolve-a2" || b.name == "resolve-a2" {
-			resolved = "a2"
-			for _, bl := range blocked {
-				if bl == "resolve-a2" {
-					resolved = ""
-				}
-			}
-		}
 		r.bad, r.keys = w.invariants(open, resolved, blocked)
 	}
 	return r
 }
 
+func permutations(idx []int) [][]int {
+	if len(idx) <= 1 {
+		return [][]int{append([]int{}, idx...)}
+	}
+	var out [][]int
+	for i := range idx {
+		rest := append(append([]int{}, idx[:i]...), idx[i+1:]...)
+		for _, p := range permutations(rest) {
+			out = append(out, append([]int{idx[i]}, p...))
+		}
+	}
+	return out
+}
+
+func tuples(n, k int) [][]int {
+	var out [][]int
+	var rec func(start int, cur []int)
+	rec = func(start int, cur []int) {
+		if len(cur) == k {
+			out = append(out, append([]int{}, cur...))
+			return
+		}
+		for i := start; i < n; i++ {
+			rec(i+1, append(cur, i))
+		}
+	}
+	rec(0, nil)
+	return out
+}
+
+// runPairs explores every pair (and, with triples, every triple) of operations of every prepared state.
 func runPairs(c *vsched.RunCtx, race bool) {
 	pre := 2
 	if c.Thorough() {
@@ -355,96 +436,109 @@ func runPairs(c *vsched.RunCtx, race bool) {
 	}
 	unit := 0
 	for _, st := range pairStates() {
-		n := 0
+		var opNames []string
 		vsched.Run(vsched.Opts{}, func(s *vsched.Sched) {
 			s.Frozen = true
-			cfg := st.cfg
-			w := newPoolWorld(s, cfg)
+			w := newPoolWorld(s, st.cfg)
 			w.pairCalls = append([]*call{}, w.calls...)
-			n = len(st.ops(w))
+			for _, o := range st.ops(w) {
+				opNames = append(opNames, o.name)
+			}
 		})
-		for ai := 0; ai < n; ai++ {
-			for bi := ai; bi < n; bi++ {
-				if ai == bi {
-					continue
+		all := tuples(len(opNames), 2)
+		if !race || c.Thorough() {
+			all = append(all, tuples(len(opNames), 3)...)
+		}
+		for _, idx := range all {
+			idx := idx
+			unit++
+			if unit%c.NShards != c.Shard && c.Replay == nil {
+				continue
+			}
+			var seq []*pairRun
+			brokenSeq := false
+			for _, perm := range permutations(idx) {
+				perm := perm
+				var r *pairRun
+				vsched.Run(vsched.Opts{}, func(s *vsched.Sched) { r = runTuple(s, st, perm, false) })
+				if r.broken != "" {
+					brokenSeq = true // a sequential crash is the business of the history checks
 				}
-				unit++
-				if unit%c.NShards != c.Shard && c.Replay == nil {
-					continue
+				seq = append(seq, r)
+			}
+			if brokenSeq {
+				continue
+			}
+			var nm []string
+			for _, i := range idx {
+				nm = append(nm, opNames[i])
+			}
+			pairName := strings.Join(nm, " || ")
+			cfgName := st.name + ": " + pairName
+			seqKeys := map[string]bool{}
+			var seqKeyList []string
+			for _, r := range seq {
+				if !seqKeys[r.keys] {
+					seqKeys[r.keys] = true
+					seqKeyList = append(seqKeyList, "{"+r.keys+"}")
 				}
-				var seqA, seqB *pairRun
-				var an, bn string
-				vsched.Run(vsched.Opts{}, func(s *vsched.Sched) { seqA = runPair(s, st, ai, bi, 0) })
-				vsched.Run(vsched.Opts{}, func(s *vsched.Sched) { seqB = runPair(s, st, ai, bi, 1) })
-				vsched.Run(vsched.Opts{}, func(s *vsched.Sched) {
-					s.Frozen = true
-					w := newPoolWorld(s, st.cfg)
-					w.pairCalls = append([]*call{}, w.calls...)
-					o := st.ops(w)
-					an, bn = o[ai].name, o[bi].name
-				})
-				if seqA.broken != "" || seqB.broken != "" {
-					continue // a sequential crash is the business of the history checks
-				}
-				pairName := an + " || " + bn
-				cfgName := st.name + ": " + pairName
-				body := func(s *vsched.Sched) *vsched.ExecOutcome {
-					r := runPair(s, st, ai, bi, 2)
-					out := &vsched.ExecOutcome{Nontrivial: true}
-					if r.broken != "" {
-						out.Outcome = "broken: " + r.broken
-						out.StateKey = out.Outcome
-						prop, rule := "C05", "C05.PANIC"
-						if strings.HasPrefix(r.broken, "spin") {
-							prop, rule = "C06", "C06.SPIN"
-						}
-						out.Violations = append(out.Violations, vsched.Violation{Property: prop, Rule: rule,
-							Sig: fmt.Sprintf("%s [pairs %s] %s concurrently with another operation: %s", rule, st.name, pairName, strings.SplitN(r.broken, "[", 2)[0]), Msg: r.broken})
-						return out
-					}
-					var props []string
-					for p := range r.bad {
-						props = append(props, p)
-					}
-					sort.Strings(props)
-					var all []string
-					for _, p := range props {
-						all = append(all, p+": "+strings.Join(r.bad[p], "; "))
-						out.Violations = append(out.Violations, vsched.Violation{Property: p, Rule: p + ".PAIR",
-							Sig: fmt.Sprintf("%s.PAIR [pairs %s] %s: %s", p, st.name, pairName, strings.SplitN(r.bad[p][0], ":", 2)[0]),
-							Msg: strings.Join(r.bad[p], "; ")})
-					}
-					if r.keys != seqA.keys && r.keys != seqB.keys {
-						out.Violations = append(out.Violations, vsched.Violation{Property: "C01", Rule: "C01.PAIR",
-							Sig: fmt.Sprintf("C01.PAIR [pairs %s] %s: set of bound keys matches neither sequential order", st.name, pairName),
-							Msg: fmt.Sprintf("bound keys after the overlap: {%s}; after A;B: {%s}; after B;A: {%s}", r.keys, seqA.keys, seqB.keys)})
-					}
-					all = append(all, "keys="+r.keys)
-					out.Outcome = strings.Join(all, " # ")
+			}
+			body := func(s *vsched.Sched) *vsched.ExecOutcome {
+				r := runTuple(s, st, idx, true)
+				out := &vsched.ExecOutcome{Nontrivial: true}
+				if r.broken != "" {
+					out.Outcome = "broken: " + r.broken
 					out.StateKey = out.Outcome
+					prop, rule := "C05", "C05.PANIC"
+					if strings.HasPrefix(r.broken, "spin") {
+						prop, rule = "C06", "C06.SPIN"
+					}
+					out.Violations = append(out.Violations, vsched.Violation{Property: prop, Rule: rule,
+						Sig: fmt.Sprintf("%s [pairs %s] %s concurrently: %s", rule, st.name, pairName, strings.SplitN(r.broken, "[", 2)[0]), Msg: r.broken})
 					return out
 				}
-				if c.Replay != nil {
-					if c.Replay.Harness == "pairs" && c.Replay.Config == cfgName {
-						out, s := vsched.RunOnce(vsched.ExploreOpts{Race: race}, c.Replay.Choices, true, body)
-						rr := &vsched.ReplayResult{Trace: s.Events}
-						for _, v := range out.Violations {
-							if v.Sig == c.Replay.Sig {
-								rr.Reproduced, rr.Msg = true, v.Msg
-							}
-						}
-						for sig := range s.Races {
-							if "race: "+sig == c.Replay.Sig {
-								rr.Reproduced, rr.Msg = true, sig
-							}
-						}
-						c.SetReplay(rr)
-					}
-					continue
+				var props []string
+				for p := range r.bad {
+					props = append(props, p)
 				}
-				res := vsched.Explore(vsched.ExploreOpts{Name: "pairs", Config: cfgName, PreemptBound: pre, DevBound: 1, Race: race, Deadline: c.Deadline}, body)
-				c.Add(res)
+				sort.Strings(props)
+				var all []string
+				for _, p := range props {
+					all = append(all, p+": "+strings.Join(r.bad[p], "; "))
+					out.Violations = append(out.Violations, vsched.Violation{Property: p, Rule: p + ".PAIR",
+						Sig: fmt.Sprintf("%s.PAIR [pairs %s] %s: %s", p, st.name, pairName, strings.SplitN(r.bad[p][0], ":", 2)[0]),
+						Msg: strings.Join(r.bad[p], "; ")})
+				}
+				if !seqKeys[r.keys] {
+					out.Violations = append(out.Violations, vsched.Violation{Property: "C01", Rule: "C01.PAIR",
+						Sig: fmt.Sprintf("C01.PAIR [pairs %s] %s: set of bound keys matches no sequential order", st.name, pairName),
+						Msg: fmt.Sprintf("bound keys after the overlap: {%s}; after the sequential orders: %s", r.keys, strings.Join(seqKeyList, " "))})
+				}
+				all = append(all, "keys="+r.keys)
+				out.Outcome = strings.Join(all, " # ")
+				out.StateKey = out.Outcome
+				return out
 			}
+			if c.Replay != nil {
+				if c.Replay.Harness == "pairs" && c.Replay.Config == cfgName {
+					out, s := vsched.RunOnce(vsched.ExploreOpts{Race: race}, c.Replay.Choices, true, body)
+					rr := &vsched.ReplayResult{Trace: s.Events}
+					for _, v := range out.Violations {
+						if v.Sig == c.Replay.Sig {
+							rr.Reproduced, rr.Msg = true, v.Msg
+						}
+					}
+					for sig := range s.Races {
+						if "race: "+sig == c.Replay.Sig {
+							rr.Reproduced, rr.Msg = true, sig
+						}
+					}
+					c.SetReplay(rr)
+				}
+				continue
+			}
+			res := vsched.Explore(vsched.ExploreOpts{Name: "pairs", Config: cfgName, PreemptBound: pre, DevBound: 1, Race: race, Deadline: c.Deadline}, body)
+			c.Add(res)
 		}
 	}
 }
